@@ -63,6 +63,11 @@ func genHistoryCase(prop, tier string, r *rand.Rand) *Case {
 					Event{Tag: pick(r, []string{"BIRT", "RESI"}), Place: pick(r, placePool)})
 			case 1:
 				p.Events = append(p.Events, Event{Tag: "BIRT", Date: GenDate(r, 1850+r.IntN(60))}, Event{Tag: "BIRT", Place: pick(r, placePool)})
+			case 3:
+				// the same name recorded twice
+				if len(p.Names) > 0 {
+					p.Names = append(p.Names, p.Names[0])
+				}
 			case 2:
 				// nothing is known about the birth
 				var kept []Event
@@ -124,6 +129,16 @@ func genHistoryCase(prop, tier string, r *rand.Rand) *Case {
 		default:
 			op.Op = pick(r, ros)
 			op.Jobs = pick(r, []int{1, 2, 3, 8})
+		}
+		if (op.Op == "doc.delete" || op.Op == "doc.setnodes" || op.Op == "node.delete") && r.IntN(2) == 0 {
+			// root records go, and the next thing that happens is a read by
+			// several goroutines at once (nothing looks anything up before)
+			cfg.Ops = append(cfg.Ops, op)
+			op = HistOp{S: op.S, Op: pick(r, []string{"ro.compare", "ro.compare", "ro.publish", "ro.diffpage"}), Jobs: pick(r, []int{2, 3, 8}),
+				A: r.IntN(1000), B: r.IntN(1000), C: r.IntN(1000), Seed: r.Uint64()}
+			if r.IntN(2) == 0 {
+				cfg.CheckEveryStep = false
+			}
 		}
 		if sessions == 2 && r.IntN(5) == 0 {
 			// two users of the library at the same time, each with its own document
@@ -763,6 +778,14 @@ func applyReadOnly(t *testing.T, cr *CaseResult, prop string, ss *session, other
 			return false, ""
 		}
 		guard(func() {
+			if op.C%2 == 1 {
+				// the exported filters used directly, one at a time
+				fn := []gedcom.FilterFunction{gedcom.RemoveDuplicateNamesFilter(), gedcom.RemoveEmptyDeathTagFilter(), gedcom.OnlyVitalsTagFilter(),
+					gedcom.OfficialTagFilter(), gedcom.SimpleNameFilter(gedcom.NameFormatWritten), gedcom.BlacklistTagFilter(gedcom.TagPlace),
+					gedcom.WhitelistTagFilter(gedcom.TagIndividual, gedcom.TagName, gedcom.TagBirth)}[op.B%7]
+				gedcom.Filter(i, gedcom.NewDocument(), fn)
+				return
+			}
 			ff := &gedcom.FilterFlags{NoPlaces: op.B%2 == 0, OnlyVitals: op.C%3 == 0, NoDuplicateNames: true}
 			ff.Filter(i, gedcom.NewDocument())
 		})
